@@ -55,8 +55,7 @@ Definition do_file (c : str) (x : bool) (d : dest_state) (missing : bool) : str 
   let st := if missing then cas_del (d_hash (fm_digest fm)) st else st in
   let '(cls, lst) := show_result (x_file_load fm st d) in
   tabs [cls; lst;
-        L "prior_exec=" ++ b01 (file_restore_exec d) ++ L ";possible=" ++ b01 (file_restore_possible d)
-        ++ L ";exec_recorded=" ++ b01 (fm_exec fm)].
+        L "prior_exec=" ++ b01 (file_restore_exec d) ++ L ";exec_recorded=" ++ b01 (fm_exec fm)].
 
 Definition run_case (c : case) : str :=
   match c with
